@@ -135,12 +135,20 @@ def generate(rng, tier):
         cases.append({"entry": entry, "steps": steps, "rate": rate, "accel": accel, "acc": acc, "family": fam, "truth": list(t)})
     return cases
 
+def _clear(c):
+    """the request for a cleared accumulator: the literal, or an equal string built at run time (what a caller reading it from a file or a
+    command line passes: equal to "clear" but a different object)"""
+    return "clear" if (c["rate"] + c["accel"]) % 2 else "".join(("cle", "ar"))
+
 def run_impl(c):
     mpmath.mp.dps = [5, 15, 30, 50][(c["steps"] + c["rate"]) % 4]
     try:
         if c["entry"] == 1:
             t = ebb_motion.moveTimeLM(c["rate"], c["steps"], c["accel"]); return {"T": int(t), "p": 0, "c": 0}
-        t, p, a = ebb_calc.calculate_lm(c["steps"], c["rate"], c["accel"], "clear" if c["acc"] is None else c["acc"])
+        if c["acc"] is None and (c["steps"] + c["accel"]) % 3 == 0:
+            t, p, a = ebb_calc.calculate_lm(c["steps"], c["rate"], c["accel"])          # argument omitted: the documented default is "clear"
+        else:
+            t, p, a = ebb_calc.calculate_lm(c["steps"], c["rate"], c["accel"], _clear(c) if c["acc"] is None else c["acc"])
         return {"T": int(t), "p": int(p), "c": int(a)}
     finally:
         mpmath.mp.dps = 15
